@@ -544,6 +544,8 @@ def check_symbols_minute_major(repo, rep):
 
 
 def run(repo: Repo, rep, tier: str):
+    from vlib import memo
+    rep.guarded(memo.check, repo, rep, "C03-R8", [(FUT, "FuturesExchange"), (POSITION, "Position")], "futures ledger and position")
     rep.exhaustive = True
     rep.assume("backtest mode; sum_floats/subtract_floats modelled as exact + and -; magnitudes, prices, fee, leverage are non-negative reals")
     rep.assume("row matching in the margin tables (np.where(np.all(array == row))) is modelled on exact values: float drift of stored rows is not modelled")
